@@ -3,6 +3,9 @@ import ObiVerif.Lemmas.SeqOps
 import ObiVerif.Lemmas.SeqHeapStep
 import ObiVerif.Lemmas.SeqHeapRefine
 import ObiVerif.Lemmas.SeqAnnot
+import ObiVerif.Lemmas.SeqAnnotSub
+import ObiVerif.Lemmas.SeqHeapMut
+import ObiVerif.Lemmas.SeqAnnTree
 /-!
 # C07 — reverse complement, subsequence and copy obey their algebraic laws (property theorems)
 
@@ -826,5 +829,175 @@ theorem join_then_rc_panics (o o2 : SeqAnnot.WObj) (hq : o.qual ≠ []) (hl : o.
 
 example : SeqAnnot.rcW (SeqAnnot.joinW ⟨[97, 99], [1, 2], none, []⟩ ⟨[103, 103], [], none, []⟩) = none :=
   join_then_rc_panics _ _ (by decide) rfl (by decide)
+
+/-! ## Third pass: rc (sub x) = sub' (rc x) on the WHOLE object, every window (Lemmas/SeqAnnotSub.lean) -/
+
+/-- **rc (sub x) = sub' (rc x) on the whole object**: bases, qualities, the WHOLE `pairing_mismatches` map
+(absent / empty / any entries: the same entries are dropped, the others get the same rewritten key and the
+same position, in the same order), other annotations; for every window `fr < n`, `1 ≤ to ≤ n`: one piece
+(`fr < to`) or wrapping across the origin (`to ≤ fr`, circular).  Both routes succeed and give the same
+object `x`, of `wlen fr to n` bases. -/
+theorem rcW_subW (o : SeqAnnot.WObj) (fr to : Nat) (c : Bool)
+    (hq : o.qual = [] ∨ o.qual.length = o.seq.length)
+    (hk : ∀ m, o.mm = some m → ∀ kp ∈ m, 13 ≤ kp.1.length ∧ 1 ≤ kp.2 ∧ kp.2 ≤ o.seq.length)
+    (hfr : fr < o.seq.length) (hto1 : 1 ≤ to) (hto : to ≤ o.seq.length) (hc : fr < to ∨ c = true) :
+    ∃ s r x, SeqAnnot.subW o fr to c = .ok s ∧ SeqAnnot.rcW s = some x ∧ SeqAnnot.rcW o = some r ∧
+      SeqAnnot.subW r ((o.seq.length - to : Nat) : Int) ((o.seq.length - fr : Nat) : Int) c = .ok x ∧
+      x.seq.length = SeqAnnot.wlen fr to o.seq.length :=
+  SeqAnnot.rcW_subW o fr to c hq hk hfr hto1 hto hc
+
+/-- non-vacuity, WRAPPING window `[3, 2)` of 5 bases with qualities and two mismatches (position 2 is kept,
+position 3 is dropped by both routes) -/
+example : ∃ s r x, SeqAnnot.subW ⟨[97, 99, 103, 116, 110], [1, 2, 3, 4, 5],
+      some [([40, 97, 58, 51, 48, 41, 45, 62, 40, 99, 58, 49, 50, 41], 2),
+            ([40, 116, 58, 49, 50, 41, 45, 62, 40, 45, 58, 48, 48, 41], 3)], []⟩ (3 : Nat) (2 : Nat) true = .ok s ∧
+    SeqAnnot.rcW s = some x ∧ SeqAnnot.rcW ⟨[97, 99, 103, 116, 110], [1, 2, 3, 4, 5],
+      some [([40, 97, 58, 51, 48, 41, 45, 62, 40, 99, 58, 49, 50, 41], 2),
+            ([40, 116, 58, 49, 50, 41, 45, 62, 40, 45, 58, 48, 48, 41], 3)], []⟩ = some r ∧
+    SeqAnnot.subW r ((5 - 2 : Nat) : Int) ((5 - 3 : Nat) : Int) true = .ok x ∧ x.seq.length = 4 :=
+  rcW_subW _ 3 2 true (Or.inr rfl) (by
+    intro m hm kp hkp
+    simp only [Option.some.injEq] at hm
+    subst hm
+    simp only [List.mem_cons, List.not_mem_nil, or_false] at hkp
+    rcases hkp with e | e <;> subst e <;> decide) (by decide) (by decide) (by decide) (Or.inr rfl)
+
+/-- the position part for every window, wrapping included -/
+theorem subseqPos_revcmpPos_window (n fr to : Nat) (p : Int) (hfr : fr < n) (hto1 : 1 ≤ to) (hto : to ≤ n)
+    (h1 : 1 ≤ p) (hn : p ≤ n) :
+    (subseqPos fr n (SeqAnnot.wlen fr to n) p).map (revcmpPos (SeqAnnot.wlen fr to n)) =
+      subseqPos (n - to : Nat) n (SeqAnnot.wlen fr to n) (revcmpPos n p) :=
+  SeqAnnot.subseqPos_revcmpPos_gen n fr to p hfr hto1 hto h1 hn
+
+/-! ## Third pass: mutator histories on the heap (Model/SeqHeapMut.lean, Lemmas/SeqHeapMut.lean) -/
+
+open ObiVerif.SeqHeap in
+/-- **every mutator of `BioSequence`** (`Write*`, `Clear*`, `Join`, `SetSequence`, `SetId`, `SetAttribute`,
+`ReverseComplement` / `Subsequence` with `_revcmpMutation` / `_subseqMutation`, and all the operations of
+`SeqHeap.step`) **refines its value semantics**, for every decision of the pool and of `append` -/
+theorem mut_step_refines {h : Heap} (hI : Inv h) (ch : Nat → Nat) (op : MOp) :
+    sim (mstep h ch op) = mvstep h.view op := mstep_refines hI ch op
+
+open ObiVerif.SeqHeap in
+theorem mut_run_refines (ops : List MOp) (ch : Nat → Nat → Nat) :
+    sim (mrun Heap.empty ch 0 ops) = mvrun (fun _ => none) ops :=
+  mrun_refines ops ch 0 Heap.empty Inv.empty
+
+open ObiVerif.SeqHeap in
+/-- after ANY history of mutators, two different live slice fields never show the same backing array, and no
+pooled slice variable shows the array of a live object -/
+theorem mut_no_shared_buffer (ops : List MOp) (ch : Nat → Nat → Nat) (h' : Heap)
+    (hr : mrun Heap.empty ch 0 ops = .ok h') :
+    ∀ c d s t, Owner h' c → Owner h' d → h'.cells c = some s → h'.cells d = some t → s.buf = t.buf → c = d :=
+  (mrun_inv ops ch 0 Heap.empty h' Inv.empty hr).sep
+
+open ObiVerif.SeqHeap in
+/-- **the rc law after every mutator, as a theorem**: in every heap satisfying the invariant (every heap
+reached by a history of mutators: `mrun_inv`), whatever the pool decides, `b := a.ReverseComplement(false)`
+shows the reverse complement of what `a` shows NOW (bases), its qualities reversed, its features, its
+annotations with `pairing_mismatches` rewritten — and `a` still shows what it showed. -/
+theorem mut_rc_current {h : Heap} (hI : Inv h) (ch : Nat → Nat) (a b : String) (oa : OV) (ann' : Ann)
+    (ha : h.view a = some oa) (hb : h.view b = none) (hann : rcAnn oa.seq.length oa.ann = some ann') :
+    ∃ h', mstep h ch (.rcm a b) = .ok h' ∧
+      h'.view b = some ⟨revcompInPlace oa.seq, reverseInPlace oa.qual, oa.feat, ann'⟩ ∧ h'.view a = some oa := by
+  have hab : a ≠ b := by intro e; rw [e, hb] at ha; cases ha
+  have hr := mstep_refines hI ch (.rcm a b)
+  have hv : mvstep h.view (.rcm a b) =
+      .ok (vput (vput h.view b (some ⟨revcompInPlace oa.seq, reverseInPlace oa.qual, oa.feat, oa.ann⟩)) b
+        (some ⟨revcompInPlace oa.seq, reverseInPlace oa.qual, oa.feat, ann'⟩)) := by
+    simp only [mvstep, vstep, ha, hb, vAnnApply, vput_same, revcompInPlace_length, hann]
+  rw [hv] at hr
+  cases hs : mstep h ch (.rcm a b) with
+  | error e => rw [hs] at hr; simp [sim] at hr
+  | ok h' =>
+    rw [hs] at hr
+    simp only [sim, Except.ok.injEq] at hr
+    refine ⟨h', rfl, ?_, ?_⟩
+    · rw [hr, vput_same]
+    · rw [hr, vput_ne _ _ hab, vput_ne _ _ hab, ha]
+
+/-- non-vacuity: `Clear` then `Write` (appended IN PLACE: the array has spare capacity), then the law -/
+example : ∃ v, SeqHeap.mvrun (fun _ => none)
+      [.base (.new "a" [97, 99, 103, 116] none), .clear "a", .write "a" [116, 116, 99], .rcm "a" "b"] = .ok v ∧
+    v "b" = some ⟨revcompInPlace [116, 116, 99], [], [], []⟩ := by
+  refine ⟨_, rfl, ?_⟩
+  simp [SeqHeap.vput, reverseInPlace_eq_reverse, lower]
+
+open ObiVerif.SeqHeap in
+/-- **capacity: `append` never writes into an array it does not own.**  `cell c = append(cell c, data...)`
+on a field of a live object — in place when `len + len(data) ≤ cap`, in a new array otherwise — leaves every
+other live field and every pooled slice variable as it was and leaves their WHOLE backing array (spare
+capacity included) untouched.  Every `appendCell` of `step` / `mstep` is applied to a field of the target
+object (obligation `Fld` of `Tgt.append0/1` in the refinement proofs).  The seeded regression C07-m4
+(`append(seq[from:], seq[0:to]...)`) appends to a slice of the SOURCE's array: it is outside this model and
+is caught by the oracle `hist.shared-buffer`. -/
+theorem append_private {h : Heap} (hI : Inv h) {c : Nat} (hc : Fld h c) (data : Bytes) (g : Nat)
+    {d : Nat} (hd : Owner h d) (hdc : d ≠ c) {t : Slice} (ht : h.cells d = some t) :
+    (h.appendCell c data g).cells d = some t ∧ (h.appendCell c data g).bufs t.buf = h.bufs t.buf :=
+  appendCell_private hI hc data g hd hdc ht
+
+open ObiVerif.SeqHeap in
+/-- … and the in-place branch exists: with enough capacity the slice keeps its array -/
+theorem append_in_place {h : Heap} {c : Nat} {s : Slice} (hs : h.cells c = some s) (data : Bytes) (g : Nat)
+    (hcap : s.len + data.length ≤ (h.bufs s.buf).length) :
+    (h.appendCell c data g).cells c = some ⟨s.buf, s.len + data.length⟩ ∧ (h.appendCell c data g).nbuf = h.nbuf :=
+  appendCell_in_place hs data g hcap
+
+/-! ## Third pass: annotation values with sharing (Model/SeqAnnTree.lean, Lemmas/SeqAnnTree.lean) -/
+
+open ObiVerif.AnnTree in
+/-- **no annotation value is shared**: after any history of `SetAttribute` / `Copy` / `ReverseComplement(false)`
+/ `Subsequence` / in-place edits of nested maps and slices / `Recycle`, for every decision of the annotation
+pool, no pointer (top-level map, nested map, slice, at any depth) occurs in two live objects, and no pooled
+top-level map belongs to a live object -/
+theorem no_shared_annotation (ops : List AOp) (ch : Nat → Nat) (s' : State)
+    (hr : arun State.empty ch 0 ops = .ok s') :
+    (∀ p ∈ s'.objs, ∀ q ∈ s'.objs, p.name ≠ q.name → ∀ x ∈ p.ids, x ∉ q.ids) ∧
+    (∀ p ∈ s'.pool, ∀ o ∈ s'.objs, p ∉ o.ids) :=
+  ⟨(arun_inv ops ch 0 _ s' Inv.empty hr).disj, (arun_inv ops ch 0 _ s' Inv.empty hr).poolFree⟩
+
+open ObiVerif.AnnTree in
+/-- **frame**: every operation — the in-place edit `node[k] = v` of a container reached through its target
+included, which rewrites every occurrence of the pointer in every object — leaves all other live objects
+exactly as they were -/
+theorem ann_frame {s s' : State} (hI : Inv s) {ch : Nat} {op : AOp} (h : astep s ch op = .ok s') :
+    ∀ o ∈ s.objs, o.name ≠ op.target → o ∈ s'.objs := astep_frame hI h
+
+open ObiVerif.AnnTree in
+/-- `deepcopy` allocates only new pointers (`MustFillMap` = `AForest.fill`) -/
+theorem fill_fresh (f : AForest) (n : Nat) : ∀ x ∈ (f.fill n).1.ids, n ≤ x ∧ x < (f.fill n).2 :=
+  (AForest.fill_spec f n).2
+
+open ObiVerif.AnnTree in
+/-- the integer stored at `o.annotations[k1][k2]` -/
+def intAt (o : AObj) (k1 k2 : String) : Option Int :=
+  match o.kids.get k1 with
+  | some (.node _ _ ks) => match ks.get k2 with
+    | some (.leaf (.int v)) => some v
+    | _ => none
+  | _ => none
+
+open ObiVerif.AnnTree in
+/-- **counterexample for the shallow copy** (seeded/C07-m1, `maps.Copy` instead of `MustFillMap`): `a` carries
+`m = {x: 1}` (pointer 1); after `b := a.Copy()` with the shallow fill, pointer 1 occurs in both objects (the
+invariant of `no_shared_annotation` is lost), and the edit `b.m["x"] = 100` is seen through `a` -/
+theorem shallow_copy_shares :
+    ∃ s1 s2 s3, arun State.empty (fun _ => 0) 0
+        [.new "a", .setattr "a" "m" (.node 0 true (.cons "x" (.leaf (.int 1)) .nil))] = .ok s1 ∧
+      deriveShallow s1 0 "a" "b" = .ok s2 ∧
+      (s2.find "a").map (·.ids) = some [0, 1] ∧ (s2.find "b").map (·.ids) = some [2, 1] ∧
+      (s2.find "a").map (intAt · "m" "x") = some (some 1) ∧
+      astep s2 0 (.edit "b" ["m"] "x" (.int 100)) = .ok s3 ∧
+      (s3.find "a").map (intAt · "m" "x") = some (some 100) :=
+  ⟨_, _, _, rfl, rfl, rfl, rfl, rfl, rfl, rfl⟩
+
+open ObiVerif.AnnTree in
+/-- … while with the real fill (`derive`) the same edit leaves `a` alone (instance of `ann_frame`) -/
+example : ∃ s2 s3, arun State.empty (fun _ => 0) 0
+        [.new "a", .setattr "a" "m" (.node 0 true (.cons "x" (.leaf (.int 1)) .nil)), .derive "a" "b"] = .ok s2 ∧
+      (s2.find "b").map (·.ids) = some [2, 3] ∧
+      astep s2 0 (.edit "b" ["m"] "x" (.int 100)) = .ok s3 ∧
+      (s3.find "a").map (intAt · "m" "x") = some (some 1) ∧ (s3.find "b").map (intAt · "m" "x") = some (some 100) :=
+  ⟨_, _, rfl, rfl, rfl, rfl, rfl⟩
 
 end ObiVerif.Props.C07
